@@ -430,7 +430,7 @@ def reference_graph(proj, cfg):
     for m in proj['mods']:
         if m.get('mutual'):
             a, b = (item_name(proj, x) for x in m['mutual'])
-            if a in nodes and b in nodes:
+            if (a, b) in edges and (b, a) in edges:
                 cyc.append((a, b))
     return {'nodes': nodes, 'edges': set(edges), 'ignored': ignored, 'cycles': cyc,
             'has_external': any(k == 'external' for k in nodes.values())}
